@@ -495,12 +495,17 @@ CHECKS = {
             "incl. the default natural population, CMA-ES and a persistent-individual ask/tell strategy), with and without hall of fame, statistics and verbose output, are "
             "replayed generation by generation through the abstract machine and, when a hall of fame is supplied, through the composed machine (model-computed selection "
             "vs real selected indices, model hall of fame vs real hall of fame, list identity, ask/tell record, at every boundary); the statement is evaluated as an "
-            "oracle at every boundary.",
-            TB + "the CMA update's numerics are outside the model (only its ask/tell protocol and the order update() leaves the list in); selectors return members of their "
+            "oracle at every boundary. TRANSLATOR TIE: the definitions of eaSimple, eaMuPlusLambda, eaMuCommaLambda and eaGenerateUpdate are regenerated from the "
+            "current deap/algorithms.py on every run (harness/py2lean_c03.py; the called varAnd / varOr by C02's translator) and kernel-checked equal to "
+            "Loops.eaSimple / eaMuPlusLambda / eaMuCommaLambda / eaGenerateUpdate on every per-generation decision tape (GenEq/C03.lean.tmpl: Gen.<f>_eq_canon, "
+            "Gen.<f>_eq_model; Lemmas/C03Gen.lean), so the C03 theorems speak about the code as it is; gp.harm stays tied by correspondence only.",
+            TB + "the translator's rendering rules (docstring of harness/py2lean_c03.py, prelude Core/GenPreludeC03.lean; stats / verbose / logbook header not rendered); "
+            "the CMA update's numerics are outside the model (only its ask/tell protocol and the order update() leaves the list in); selectors return members of their "
             "input; roulette and NSGA-II selections stay on the position tape (not computed by the composed model); initial population = distinct objects (the same "
             "unevaluated object listed twice is evaluated twice: outside the premise), pre-evaluated truthfully; evaluate pure; hall of fame similarity = equal genotypes "
             "(the default operator.eq).",
-            "Lean 4 proof over a hand-written model, composed with the C06/C08 models + trace refinement + oracle"),
+            "Lean 4 proof over a hand-written model, composed with the C06/C08 models + trace refinement + oracle + translator tie (definitions regenerated "
+            "from source, kernel-checked equal to the model)"),
     "C07": ("full",
             "Lean theorems C07.*: SPEA2 returns exactly k distinct input objects, all non-dominated when #nd<=k, only non-dominated when #nd>=k, for every "
             "density value and every matrix of computed squared distances, overflowed (+inf) entries included (spea2V_len/sub_perm/all_nd_when_few/only_nd_when_many; "
